@@ -65,15 +65,16 @@ C02Alt(E, S, line) ==
   IF ~Has(E, "alt") \/ ~Has(E, "hits") \/ ~Sentinels(S.s) THEN NoRes
   ELSE JoinAll([k \in DOMAIN E.alt |->
          LET A == E.alt[k] IN
-         IF 0 \in SeqRange(A.l) \/ 0 \in SeqRange(A.r) THEN NoRes          \* markers are NUL-free by the quantifier
-         ELSE JoinAll(<<
+         \* a NUL inside a marker is dropped like any other NUL (a returned title never contains NUL)
+         JoinAll(<<
+           Chk(\A i \in DOMAIN A.hits : 0 \notin SeqRange(A.hits[i].title), line, "C02", "returned title contains NUL"),
            Chk(~Has(A, "panic"), line, "C01", "search with other markers panicked"),
            Chk(Ids(A.hits) = Ids(E.hits), line, "C02", "changing the markers changed the hit list"),
            IF Ids(A.hits) = Ids(E.hits)
              THEN JoinAll([i \in DOMAIN E.hits |->
                     LET p == ParseHL(E.hits[i].title) IN
                     ChkIf(p.ok /\ HasRecS(S, E.hits[i].id) /\ SentinelFree(RecOfS(S, E.hits[i].id).title),
-                          A.hits[i].title = InsertMarkers(p.plain, p.spans, A.l, A.r),
+                          A.hits[i].title = InsertMarkers(p.plain, p.spans, StripNul(A.l), StripNul(A.r)),
                           line, "C02", "changing the markers changed more than the markers")])
              ELSE NoRes >>)])
 
@@ -81,6 +82,12 @@ C02Alt(E, S, line) ==
 \* C09 (+ the span clause of C05): markup of one hit against the public tokenisation of its title
 C09Hit(h, E, S, line) ==
   LET s == S.s IN
+  IF Sentinels(s) /\ ~HasRecS(S, h.id) /\ Has(E, "q") THEN
+    \* a hit that is not a record of the store (C02 reports that): the count rule can still be judged
+    LET p0 == ParseHL(h.title) IN
+    IF QHasAlnum(E) THEN ChkIf(p0.ok, Len(p0.spans) >= 1, line, "C09", "hit for a query with a letter or digit has no highlight")
+                    ELSE ChkIf(p0.ok, Len(p0.spans) = 0, line, "C09", "hit for a query without letter or digit is highlighted")
+  ELSE
   IF ~(HasRecS(S, h.id) /\ Sentinels(s) /\ SentinelFree(RecOfS(S, h.id).title)) THEN NoRes
   ELSE
   LET p    == ParseHL(h.title)
